@@ -343,6 +343,67 @@ macro_rules! full_set {
                         }
                         vec![oint(acc), oint(first), oint(sg_::verify(&sig, m, pk) as i32)]
                     }
+                    "keypair_digest" => {
+                        let mut pk = vec![0u8; par::PUBLICKEYBYTES]; let mut sk = vec![0u8; par::SECRETKEYBYTES];
+                        sg_::keypair(&mut pk, &mut sk, Some(bytes(&a[0])));
+                        pk.extend_from_slice(&sk);
+                        let mut d = [0u8; 32];
+                        cd::fips202::shake256(&mut d, 32, &pk, pk.len());
+                        vec![obytes(&d)]
+                    }
+                    // volume self-check: n messages signed into ONE reused (never cleared) buffer and verified; a fresh key
+                    // every `per_key` messages. Returns failures, index and message of the first failure, max attempts unknown.
+                    "selfcheck" => {
+                        let mut st = (int(&a[0]) as u64) | 1;
+                        let n = int(&a[1]) as usize; let per_key = int(&a[2]) as usize; let rand = int(&a[3]) != 0;
+                        let mut next = move || { st ^= st << 13; st ^= st >> 7; st ^= st << 17; st };
+                        let mut pk = vec![0u8; par::PUBLICKEYBYTES]; let mut sk = vec![0u8; par::SECRETKEYBYTES];
+                        let mut sig = vec![0x5Au8; par::SIGNBYTES];
+                        let mut fails = 0i64; let mut first: i64 = -1; let mut fmsg: Vec<u8> = vec![]; let mut fseed: Vec<u8> = vec![];
+                        let mut sbad = 0i64; let mut sfirst: i64 = -1; let mut smsg: Vec<u8> = vec![]; let mut sseed: Vec<u8> = vec![]; let mut swhy = 0i64;
+                        let ct = par::SIGNBYTES - vl::L * par::POLYZ_PACKEDBYTES - par::POLYVECH_PACKEDBYTES;
+                        let zbits: usize = if par::POLYZ_PACKEDBYTES == 576 { 18 } else { 20 };
+                        let g1: i64 = 1 << (zbits - 1);
+                        let zbound: i64 = g1 - par::BETA as i64;
+                        let mut seed = vec![0u8; 32];
+                        for i in 0..n {
+                            if i % per_key == 0 {
+                                for b in seed.iter_mut() { *b = next() as u8; }
+                                sg_::keypair(&mut pk, &mut sk, Some(&seed));
+                            }
+                            let mlen = [0usize, 1, 8, 33, 72, 73, 104, 105, 200][(next() % 9) as usize];
+                            let msg: Vec<u8> = (0..mlen).map(|_| next() as u8).collect();
+                            sg_::signature(&mut sig, &msg, &sk, rand);
+                            if !sg_::verify(&sig, &msg, &pk) {
+                                fails += 1;
+                                if first < 0 { first = i as i64; fmsg = msg.clone(); fseed = seed.clone(); }
+                            }
+                            // independent structural decode of the emitted bytes: ||z|| < gamma1-beta, canonical hints, weight <= omega
+                            let mut why = 0i64;
+                            for k in 0..vl::L * 256 {
+                                let bit = k * zbits; let base = ct + bit / 8;
+                                let mut acc: u64 = 0;
+                                for b in 0..4 { if base + b < sig.len() { acc |= (sig[base + b] as u64) << (8 * b); } }
+                                let v = ((acc >> (bit % 8)) & ((1u64 << zbits) - 1)) as i64;
+                                if (g1 - v).abs() >= zbound { why = 1; }
+                            }
+                            let ho = ct + vl::L * par::POLYZ_PACKEDBYTES;
+                            let om = par::OMEGA;
+                            let mut idx = 0usize;
+                            for r in 0..vl::K {
+                                let c = sig[ho + om + r] as usize;
+                                if c < idx || c > om { why = 2; break; }
+                                for j in idx..c { if j > idx && sig[ho + j] <= sig[ho + j - 1] { why = 2; } }
+                                idx = c;
+                            }
+                            if why == 0 { for j in idx..om { if sig[ho + j] != 0 { why = 2; } } }
+                            if why != 0 {
+                                sbad += 1;
+                                if sfirst < 0 { sfirst = i as i64; smsg = msg.clone(); sseed = seed.clone(); swhy = why; }
+                            }
+                        }
+                        vec![oint(fails), oint(first), obytes(&fseed), obytes(&fmsg), oint(sbad), oint(swhy), obytes(&sseed), obytes(&smsg)]
+                    }
                     // unseeded key generation with the real RNG; the tap only records what was drawn
                     "keypair_live" => {
                         let mut pk = vec![0u8; par::PUBLICKEYBYTES]; let mut sk = vec![0u8; par::SECRETKEYBYTES];
